@@ -610,6 +610,17 @@ pub fn f_lib(_thorough: bool) -> Vec<Ty> {
     out.push(Ty::Tuple(vec![p(U8), p(U16), p(U8)]));
     out.push(Ty::Tuple(vec![p(U8), p(Bool), p(U8)]));
     out.push(Ty::Tuple(vec![p(U8), p(U64)]));
+    // tuples holding a derived struct with a version history (each position): the tuple's packed
+    // answer must follow the answers of ALL its components at every version
+    {
+        let sv = strukt(true, Style::Named, vec![Field::plain("a", p(U32)), versioned(Field::plain("b", p(U32)), 1, u32::MAX)]);
+        out.push(Ty::Tuple(vec![p(U32), p(U32), sv.clone()]));
+        out.push(Ty::Tuple(vec![p(U32), sv.clone(), p(U32)]));
+        out.push(Ty::Tuple(vec![sv.clone(), p(U32), p(U32)]));
+        out.push(Ty::Tuple(vec![p(U32), sv.clone()]));
+        out.push(Ty::Array(b(sv.clone()), 3));
+        out.push(Ty::Opt(b(sv)));
+    }
     // element type with a counted destructor (rejects the byte 0xFF): error paths of sequence
     // and array loaders must not drop what they never built
     let probe = lib("DropProbe", "vglue::probe::DropProbe", p(U8));
